@@ -279,7 +279,8 @@ Section Model.
     np_choice (dkeys pd) (dvals pd) un.
 
   (* the candidate outputs QuickSampler computes probabilities for:
-     fock_basis(n_modes, n_photons), threshold detectors keep max(s) == 1,
+     fock_basis(n_modes, n_photons), threshold detectors keep max(s) <= 1
+     (repaired: the pinned filter max(s) == 1 refused the vacuum input),
      then the post-selection *)
   Fixpoint filterM {A} (f : A -> res bool) (l : list A) : res (list A) :=
     match l with
@@ -288,7 +289,7 @@ Section Model.
     end.
   Definition qs_out_states (n_modes n_ph : nat) (pc : bool) (ps : postselect) : res (list state) :=
     let basis := map (map Z.of_nat) (fock_sums n_modes n_ph) in
-    let basis := if pc then basis else filter (fun s => fold_right Z.max 0 s =? 1) basis in
+    let basis := if pc then basis else filter (fun s => fold_right Z.max 0 s <=? 1) basis in
     filterM ps basis.
   Definition qs_supported (pd : dist) (outs : list state) : bool :=
     forallb (fun s => existsb (st_eqb s) outs) (dkeys pd).
